@@ -92,6 +92,29 @@ class BuiltinMixin:
             if len(args) == 2:
                 return Opaque(("range", args[0], args[1]))
             raise Unsupported("range with step")
+        if name in ("cround", "trunc", "c_cast_short", "c_cast_int", "c_cast_long", "c_cast_double", "c_cast_float"):
+            # C scalar semantics for the mechanically translated `cdef` functions (doubles are read as exact reals - stated assumption)
+            self.trusted.add("C scalars of translated cdef functions: double = exact real; libc round = half away from zero; trunc = toward zero; "
+                             "<short>/<int> of an integral value wraps modulo 2^16 / 2^32 (two's complement), of a real truncates toward zero first")
+            v = args[0]
+            if isinstance(v, bool):
+                v = int(v)
+            zr = z3.RealVal(v) if isinstance(v, (int, float)) else (z3.ToReal(v) if z3.is_int(v) else v)
+
+            def toward_zero(r):
+                return z3.If(r >= 0, z3.ToInt(r), -z3.ToInt(-r))
+            if name == "trunc":
+                return toward_zero(zr)
+            if name == "cround":
+                return z3.If(zr >= 0, z3.ToInt(zr + z3.RealVal("1/2")), -z3.ToInt(-zr + z3.RealVal("1/2")))
+            if name in ("c_cast_double", "c_cast_float"):
+                return z3.simplify(zr)
+            bits = {"c_cast_short": 16, "c_cast_int": 32, "c_cast_long": 64}[name]
+            iv = v if (isinstance(v, int) or (is_z3(v) and z3.is_int(v))) else toward_zero(zr)
+            half, mod = 2 ** (bits - 1), 2 ** bits
+            if isinstance(iv, int):
+                return (iv + half) % mod - half
+            return z3.simplify((iv + half) % mod - half)
         if name in ("min", "max", "imin", "imax"):
             f = zmin if name in ("min", "imin") else zmax
             if len(args) == 1:
